@@ -3,19 +3,25 @@ from .protoprop import spec
 
 SPEC = spec(
     'C06',
-    ['C06_release_frees_the_lock', 'C06_acquire_queues_behind_waiters', 'C06_future_completes_once', 'C06_delivered_data_was_accepted'],
-    text='The protocol model contains asyncio.Lock of CPython 3.12 (waiter queue, woken-but-not-yet-running waiter) and any number '
-         'of caller tasks; it is replayed callback by callback against the real classes with 2..4 concurrent callers under '
-         'loss/delay/fragmentation on UDP and TCP, and monitors check on the same runs that no transmission is made while another '
-         "caller's transmission is still waiting for its answer and that every caller receives the registers it asked for. "
-         'Coq theorems: lock primitives (release frees the lock and wakes at most the first waiter; acquire queues behind existing '
-         'waiters), futures complete at most once, delivered data was accepted by the validator.  The whole-run mutual-exclusion '
-         'invariant is NOT proved as a theorem.',
-    note='Partial: the mutual-exclusion / own-answer statements over whole runs rest on trace validation of the model plus the '
-         'overlap and own-answer monitors over enumerated and random interleavings, not on a theorem.',
-    technique='trace-validated Coq model + one-step Coq lemmas + interleaving enumeration with monitors',
+    ['C06_one_request_in_flight', 'C06_transmit_only_when_nobody_else_waits', 'C06_pending_future_is_the_awaited_one',
+     'C06_waiting_caller_owns_the_response_future',
+     'C06_release_frees_the_lock', 'C06_acquire_queues_behind_waiters', 'C06_future_completes_once', 'C06_delivered_data_was_accepted',
+     'C06_two_callers_run', 'C06_second_caller_queues'],
+    text='Coq theorems over ALL runs of the protocol model (any number of caller tasks, any interleaving of loop callbacks, I/O, '
+         'timers, OS errors, close() calls, loop changes, any fault oracle): (1) lock invariant of asyncio.Lock + the hand-rolled '
+         'release-before-retry / release-in-finally of send_request + the lock in TcpInverterProtocol.close(): at most one caller is '
+         'connecting or awaiting an answer; (2) a request is transmitted (ASend) only while no other caller is connecting or '
+         'awaiting its answer; (3) whenever a future is pending it is the protocol object\'s response_future and exactly one '
+         'caller awaits it, so data accepted while a caller waits completes that caller\'s future and nobody else\'s; plus lock '
+         'primitives, futures complete once, delivered data was accepted; non-vacuity runs with two callers.  The model is replayed '
+         'callback by callback against the real classes with 2..4 concurrent callers under loss/delay/fragmentation on UDP and TCP, '
+         'and monitors check on the same runs that no transmission overlaps a waiting one and that every caller receives the registers it asked for.',
+    note='The theorems are about the hand-written model Model/Proto.v; its tie to goodwe/protocol.py + CPython asyncio is trace '
+         'validation (every loop callback of every scenario replayed with a white-box projection), not a proof.  Timing premises of '
+         'the property (answers arrive before the timeout, at most once) are scenario constraints of the monitors, not modelled in Coq.',
+    technique='Coq invariant proofs (Proofs/ProtoMutex.v, ProtoAnswer.v) over a trace-validated model + interleaving enumeration with monitors',
     design='DESIGN.md section 5 (C06)',
-    level='model_checking',
+    level='proof',
     rule='2..4 callers with start offsets from a grid x per-transmission faults {drop, prompt, delayed, two fragments} (all triples '
          'for a fixed 3-caller pattern + seeded random), UDP/TCP, keep-alive on/off',
 )
